@@ -116,6 +116,7 @@ impl Mon {
         misc::c13_after_removal(self, ctx, stats, out);
         reward::c14_c15_pool(self, ctx, stats, out);
         reward::c16_mirror(self, ctx, stats, out);
+        reward::c16_queries(self, ctx, stats, out);
         reward::c17_dispatcher(self, ctx, stats, out);
         reward::c19_update_index(self, ctx, stats, out);
         misc::c18_all(self, ctx, stats, out);
